@@ -3,8 +3,8 @@
         policy kinds and policy structs),
      dds/src/dcps/infrastructure/time.rs        (derived order of Duration, PartialOrd of DurationKind),
      dds/src/dcps/dcps_domain_participant/discovery_methods.rs
-        get_discovered_reader_incompatible_qos_policy_list  (l. 3237)
-        get_discovered_writer_incompatible_qos_policy_list  (l. 3295)
+        get_discovered_reader_incompatible_qos_policy_list  (l. 3480)
+        get_discovered_writer_incompatible_qos_policy_list  (l. 3538)
      as they read after the fix commits f03d4da (liveliness) and 908a0e8 (presentation)
    and, separately, the request/offered table of DDS 1.4 (2.2.3) + DDS-XTypes 7.6.3.1
    (`dds_rxo`), written without looking at the code.  Definitions only. *)
